@@ -209,3 +209,85 @@ def sampler_defaults(E, size, nnz):
     D = ttb.tensor(E.const(np.ones(shape)))
     gd = smp.GCPSampler(D, max_iters=10)
     E.true(gd._fsampler.keywords["samples"] <= size, "dense default function samples <= tensor size")
+
+
+class _LbfgsStub:
+    """stand-in for scipy.optimize.fmin_l_bfgs_b: evaluates the callback once at x0, returns an arbitrary
+    (symbolic) point within the bounds; records everything it was handed"""
+
+    def __init__(self, E, tag):
+        self.E, self.tag = E, tag
+        self.calls = []
+
+    def __call__(self, func, x0, fprime=None, approx_grad=False, bounds=None, **kw):
+        E = self.E
+        f0, g0 = func(np.asarray(x0).copy() if not E.sym else x0.copy())
+        c = len(self.calls)
+        xs = []
+        for i, (lo, hi) in enumerate(bounds):
+            v = E.real(f"{self.tag}x{c}_{i}")
+            if lo != -np.inf:
+                E.assume(v >= lo)
+            xs.append(v)
+        from symx import npenv
+        xf = npenv.obj_array(xs) if E.sym else np.array(xs, dtype=float)
+        self.calls.append(dict(x0=O.cells(np.asarray(x0)), bounds=list(bounds), kw=dict(kw), f0=f0, g0=O.cells(np.asarray(g0)), xf=xf))
+        if kw.get("callback") is not None:
+            kw["callback"](xf)
+        return xf, E.real(f"{self.tag}ff{c}"), {"warnflag": 0, "nit": 1}
+
+
+@ob("C13", params=[dict(lb=lb) for lb in ("neginf", "zero")], validate=False,
+    bounds="LBFGSB wrapper with scipy's fmin_l_bfgs_b replaced by an opaque stub (arbitrary symbolic result within the bounds); 2x2 rank-1 model, Gaussian loss, symbolic data and start; two solves on one object (2x2 then 2x3 data) vs a fresh object")
+def lbfgsb_wrapper(E, lb):
+    """L-BFGS-B wrapper: start vector, bounds, objective / gradient callback, model rebuilt from the returned vector, caller's model untouched, solver object reusable"""
+    from pyttb.gcp import handles
+    lower = -np.inf if lb == "neginf" else 0.0
+    real = opt.fmin_l_bfgs_b
+
+    def run(solver, shape, tag):
+        stub = _LbfgsStub(E, tag)
+        opt.fmin_l_bfgs_b = stub
+        try:
+            X = O.dense(E, f"{tag}d", shape)
+            K0 = ttb.ktensor([E.reals(f"{tag}U{n}_", (s, 1)) for n, s in enumerate(shape)], E.const(np.ones(1)), copy=False)
+            snap = [O.cells(f) for f in K0.factor_matrices]
+            model, info = solver.solve(K0, X, handles.gaussian, handles.gaussian_grad, lower_bound=lower)
+        finally:
+            opt.fmin_l_bfgs_b = real
+        return X, K0, snap, model, info, stub
+
+    solver = opt.LBFGSB(maxiter=3)
+    X, K0, snap, model, info, stub = run(solver, (2, 2), "a")
+    E.true(len(stub.calls) == 1, "one call of the underlying optimiser")
+    call = stub.calls[0]
+    x0 = [v for f in snap for v in f.reshape(-1, order="F").tolist()]
+    E.eq(call["x0"], x0, "start vector: the factor matrices of the initial model, column by column")
+    E.true(all(b == (lower, np.inf) for b in call["bounds"]) and len(call["bounds"]) == len(x0), "one (lower bound, inf) pair per variable")
+    # objective / gradient callback at x0 == exact evaluation of the Gaussian loss
+    m0 = O.den_kruskal([1.0], snap)
+    xc = O.cells(X.data)
+    f_ref = 0.0
+    for i in np.ndindex(2, 2):
+        f_ref = f_ref + (m0[i] - xc[i]) * (m0[i] - xc[i])
+    E.eq(call["f0"], f_ref, "callback objective == sum of the loss over all entries")
+    g_ref = O.zeros((2, 2))
+    for i in np.ndindex(2, 2):
+        g_ref[i] = 2 * (m0[i] - xc[i])
+    gvec = [v for n in range(2) for v in O.ref_mttkrp(g_ref, snap, n).reshape(-1, order="F").tolist()]
+    E.eq(call["g0"], gvec, "callback gradient == MTTKRP of the loss derivative, vectorised like the model")
+    xf = np.asarray(call["xf"]).tolist()
+    got = [v for f in model.factor_matrices for v in np.asarray(f).reshape(-1, order="F").tolist()]
+    E.eq(got, xf, "returned model is rebuilt from the vector the optimiser returned")
+    if lb == "zero":
+        for v in got:
+            E.true(v >= 0, "returned factor entries respect the lower bound")
+    for n in range(2):
+        E.eq(K0.factor_matrices[n], snap[n], "caller's initial model unchanged")
+    E.true(solver._solver_kwargs.get("callback") is None, "the user's callback slot is restored after the solve")
+    # reuse on a problem of another size vs a fresh object: same settings handed to the optimiser
+    _, _, _, _, _, s2 = run(solver, (2, 3), "b")
+    _, _, _, _, _, s3 = run(opt.LBFGSB(maxiter=3), (2, 3), "b")
+    k2 = {k: v for k, v in s2.calls[0]["kw"].items() if k != "callback"}
+    k3 = {k: v for k, v in s3.calls[0]["kw"].items() if k != "callback"}
+    E.true(k2 == k3, "second solve on a used object hands the optimiser the same settings as a fresh object", f"{k2} vs {k3}")
